@@ -54,6 +54,12 @@ fn cycle_refs<T>(this: Link<T>) -> HashMap<Link<T>, usize> {
 
         let links = unsafe { node.as_ref().links().borrow() };
         for (&link, &strong) in links.iter() {
+            if let Kind::Loopback = link.kind() {
+                // Self-adoptions through the same handle have no effect: they
+                // must not be counted as cycle-owned references and must not
+                // cause `node` to be traced a second time under another key.
+                continue;
+            }
             if let Kind::Forward | Kind::Loopback = link.kind() {
                 cycle_owned_refs
                     .entry(link)
